@@ -46,7 +46,10 @@ fn leaves(xml: &str) -> Vec<(usize, usize, String)> {
 }
 
 fn time_values(rng: &mut Rng) -> String {
-    let secs: [i64; 14] = [
+    let secs: [i64; 19] = [
+        // the ends of chrono::NaiveDateTime (year -262143 .. 262142) relative to 0001-01-01, one second inside and outside,
+        // and a value inside the day below the minimum (the model's bound was one day early there: DESIGN 11.5)
+        -8_272_465_632_000, -8_272_465_632_001, -8_272_465_700_000, 8_272_402_473_599, 8_272_402_473_600,
         0, 1, -1, i64::MAX, i64::MIN, i64::MAX / 1000, i64::MAX / 1000 + 1, -(i64::MAX / 1000), -(i64::MAX / 1000) - 1,
         8_210_298_412_799 + 62_135_596_800, // just inside chrono's maximum when added to 0001-01-01
         8_300_000_000_000, -8_400_000_000_000, 63_000_000_000, 1 << 40,
